@@ -2,7 +2,7 @@
 import os
 import sys
 sys.path.insert(0, os.path.dirname(os.path.dirname(os.path.abspath(__file__))))
-from props.common import main, Run, run_child, ALL_SIDECARS  # noqa: E402
+from props.common import main, Run, run_child, ALL_SIDECARS, bounded_companion  # noqa: E402
 from props.opcodes import opcode_contracts, frame_contracts  # noqa: E402
 
 import z3  # noqa: E402
@@ -129,6 +129,8 @@ def encapsulation(run):
 def build(run: Run):
     encapsulation(run)
     run.replayers.append(make_replayer(run))
+    bounded_companion(run, "C09", "shape_diff.py", [], what="replay/shape_diff.py: Interpreter.step against pickle._Unpickler opcode by opcode over the corpus: depth, mark "
+                      "positions, memo keys")
     run.verify(*STATE_FNS)
     # the interpreter loop and tracing are verified against the *frame* contract of Opcode.run (before the per-class contracts exist)
     run.verify(*RUNTIME_FNS)
